@@ -464,6 +464,12 @@ class Program:
         if isinstance(ann, ast.BinOp) and isinstance(ann.op, ast.BitOr):
             return self.annotation_class(m, ann.left, owner, fn) or self.annotation_class(m, ann.right, owner, fn)
         if isinstance(ann, ast.Name):
+            # the type variable of `self` (def f[S: Base](self: S) -> S): the receiver's own class
+            if fn is not None and owner is not None:
+                a0 = (fn.args.posonlyargs + fn.args.args)[:1]
+                if a0 and isinstance(a0[0].annotation, ast.Name) and a0[0].annotation.id == ann.id and ann.id != "Self" \
+                        and any(tp.name == ann.id for tp in getattr(fn, "type_params", []) or []):
+                    return owner
             # type variable with a bound?
             for tv_src in ([fn] if fn is not None else []) + ([owner.node] if owner is not None else []):
                 for tp in getattr(tv_src, "type_params", []) or []:
